@@ -12,6 +12,7 @@ invalid-data kind.  DESIGN §4 C02.
 import numpy
 
 from dsim import ctx as C
+from dsim import boundary as B
 from dsim import entropy as E
 from dsim import peers as P
 from props import common as U
@@ -231,6 +232,25 @@ class _Run:
                         c.probe("fit_failed_differently")
                     failed_kinds.append("peer-fault")
                 self.check_frame(est, fp0, snap0, [], "failed-fit(peer-fault)", exempt)
+            elif kind == "B":
+                # the op[1]-th call that leaves the library raises (parent
+                # class, validation helper, numpy, inner estimator ...)
+                self.env()
+                with B.ForeignCallFaults(c, fire_at=op[1], kind=op[2]) as bf:
+                    ok, r = U.sut(c, "fit(foreign-call-fault)", est.fit, *args, **kw)
+                fired = bf.fired is not None
+                if ok:
+                    c.probe("fault_swallowed" if fired else "fault_site_not_reached")
+                    if r is not est:
+                        self.viol("fit-returns-self", (), "fit returned %r instead of the estimator" % (type(r).__name__,))
+                    if fired:
+                        return  # a swallowed fault: the model is not comparable
+                else:
+                    if not isinstance(r, (P.InjectedFault, P.InjectedCancel)) and not _caused_by_injected(r):
+                        c.probe("fit_failed_differently")
+                    failed_kinds.append("foreign-call")
+                    c.probe("fit_failed_at_a_foreign_call")
+                self.check_frame(est, fp0, snap0, [], "failed-fit(foreign-call:%s)" % (bf.fired[2] if fired else "-"), exempt)
             elif kind == "I":
                 inv = _invalid_data(op[1], spec, cfg, data)
                 if inv is None:
@@ -391,10 +411,11 @@ def run(c, index, tier):
     data = spec.data(ch, "A")
     cfg = spec.finalize(cfg, data)
     template = ch.weighted("w", TEMPLATES, "template")
-    use_invalid = ch.boolean("w", 0.4, "invalid")
+    failing = ch.weighted("w", [("invalid-data", 4), ("peer-sites", 4), ("foreign-calls", 3)], "failing")
+    use_invalid = failing == "invalid-data"
     g = ch.subseed("r", "global-seed")
     os_base = ch.subseed("r", "os-base")
-    c.scenario = {"class": spec.name, "config": {k: repr(v) for k, v in cfg.items()}, "data": data.desc, "template": template, "failing": "invalid-data" if use_invalid else "peer-sites"}
+    c.scenario = {"class": spec.name, "config": {k: repr(v) for k, v in cfg.items()}, "data": data.desc, "template": template, "failing": failing}
     c.signature = [spec.name, template, use_invalid, repr(sorted((k, repr(v)) for k, v in cfg.items() if k not in ("pre_seed",)))[:200]]
     r = _Run(c, spec, cfg, data, g, os_base)
     letters = template.split(",")
@@ -437,6 +458,35 @@ def run(c, index, tier):
             n_exec += 1
         c.scenario["executions"] = n_exec
         c.nontrivial = n_exec > 0
+        return
+
+    if failing == "foreign-calls":
+        # dry run: how many calls leave the library during fit?
+        est = spec.build(cfg)
+        r.env()
+        args, kw = spec.fit_args(data, cfg)
+        with B.ForeignCallFaults(c) as bf:
+            ok, res = U.sut(c, "fit(dry)", est.fit, *args, **kw)
+        if not ok:
+            c.probe("fit_raised_on_generated_data:" + spec.name)
+            return
+        ncross = bf.count
+        c.scenario["foreign_calls"] = ncross
+        c.probe("foreign_calls_total", ncross)
+        if not ncross:
+            c.probe("scenario_without_foreign_call")
+            return
+        budget = 16 if tier == "quick" else 48
+        if ncross <= budget:
+            positions = list(range(ncross))
+        else:
+            positions = sorted(set(ch.draw("f", ncross, "crossing") for _ in range(budget)))
+        nF = letters.count("F")
+        for k in positions:
+            kind = ch.weighted("f", [("runtime", 2), ("value", 2), ("memory", 1), ("cancel", 2)], "fault-kind")
+            r.execute([("B", k, kind) if x == "F" else (x,) for x in letters])
+        c.scenario["executions"] = len(positions)
+        c.nontrivial = True
         return
 
     # dry run: which fault sites does fit reach?
